@@ -46,6 +46,9 @@ type SynDiag struct {
 func genC36(t *rapid.T) C36Case {
 	wl := genErrorWL(t)
 	c := C36Case{WL: wl, Roots: genRequest(t, wl.names())}
+	if rapid.IntRange(0, 3).Draw(t, "hub") == 0 {
+		c.Roots = addHubClash(t, &c.WL)
+	}
 	n := rapid.IntRange(2, 4).Draw(t, "nruns")
 	for i := 0; i < n; i++ {
 		c.Runs = append(c.Runs, C36Run{Par: rapid.IntRange(1, 4).Draw(t, "par"), Warm: i > 0 && rapid.IntRange(0, 3).Draw(t, "warm") == 0})
